@@ -21,10 +21,10 @@ def fx(v):
     return F(float(v))
 
 
-def gen_spec(rng):
+def gen_spec(rng, small=None, binding=False):
     spec = net.rand_feeder_spec(rng, max_lines=6, allow_mg=rng.random() < 0.4, nfeed=rng.choice([1, 1, 2]))
     spec["s_ref"] = str(rng.choice([F(1), F(1), F(10), F(1, 10), F(100)]))
-    small = rng.random() < 0.3
+    small = (rng.random() < 0.3) if small is None else small
     for fd in spec["feeders"]:
         n = len(fd["parent"])
         fd["cost"] = [rng.choice([1, 1, 2, 3, 5, 8]) for _ in range(n)]          # ties in cost included
@@ -33,7 +33,11 @@ def gen_spec(rng):
             fd["cost"] = [str(rng.choice([F(1, 100), F(1, 50), F(1, 1000), F(1, 10)])) for _ in range(n)]
             fd["costB"] = "0"
             fd["load"] = [str(rng.choice([F(0), F(1, 500), F(1, 1000), F(1, 250), F(1, 100)])) for _ in range(n)]
-        if rng.random() < 0.5:       # binding line capacities
+        if binding:                  # targeted: base power != 1 MVA together with capacities that bind
+            spec["s_ref"] = str(rng.choice([F(10), F(1, 10), F(100)]))
+            fd["load"] = [str(rng.choice([F(1, 50), F(1, 20), F(1, 10)])) for _ in range(n)]
+            fd["cap"] = [str(rng.choice([F(1, 100), F(1, 50), F(1, 20)])) if rng.random() < 0.7 else None for _ in range(n)]
+        elif rng.random() < 0.5:       # binding line capacities
             fd["cap"] = [None if rng.random() < 0.6 else str(rng.choice([F(1, 100), F(1, 50), F(1, 20), F(0), F(1, 10)])) for _ in range(n)]
         if rng.random() < 0.5:       # distributed production, also net exporters
             fd["prod"] = {str(rng.randrange(n)): {"p": str(rng.choice([F(1, 100), F(1, 20), F(3, 10), F(1)])), "q": str(rng.choice([F(0), F(1, 50)]))}
@@ -41,14 +45,42 @@ def gen_spec(rng):
     return spec
 
 
+def junction_spec(rng):
+    """targeted: one feeder with a bus that feeds three or more lines (several laterals at one junction), every load point
+    with demand, no production, no binding capacity: the island that stays energised when a lateral end is faulted must be
+    supplied in full (the line flows of the load flow have to add up all laterals)"""
+    k = rng.choice([3, 3, 4])
+    parent = [-1] + [0] * k + [rng.randint(1, k) for _ in range(rng.choice([0, 1, 2]))]
+    n = len(parent)
+    fd = {"parent": parent, "sw": [rng.choice([1, 2, 3]) for _ in range(n)], "cust": [1] * n,
+          "load": [str(rng.choice([F(1, 50), F(1, 20), F(1, 10)])) for _ in range(n)], "cost": [rng.choice([1, 2, 3, 5]) for _ in range(n)]}
+    return {"ctrl": {"type": "manual", "T": str(rng.choice([F(1, 2), F(1)]))}, "feeders": [fd], "tie": None, "mg": None, "rep": "2", "exact": True,
+            "s_ref": str(rng.choice([F(1), F(10)]))}
+
+
 def gen(rng, n):
     cases = []
-    for _ in range(n):
-        spec = gen_spec(rng)
+    for j in range(n):
+        targeted = j % 5 == 2
+        spec = junction_spec(rng) if targeted else gen_spec(rng, small=True if j % 5 == 4 else None, binding=(j % 5 == 1))   # every fifth: small costs / small load points
         n_inc = rng.choice([6, 8])
         case = {"kind": "lp-run", "spec": spec, "n_inc": n_inc, "dt": str(rng.choice([F(1), F(1, 2)]))}
         ps = net.build(dict(spec, exact=False))
-        case["faults"] = acct.rand_faults(rng, ps, n_inc, ("line", "trafo"), nmax=3)
+        if j % 5 == 4:
+            # targeted: no production, cheapest costs, smallest load points, the whole feeder cut off from the feed
+            spec["mg"] = None
+            for fd in spec["feeders"]:
+                fd.pop("prod", None)
+                fd["cost"] = ["1/1000"] * len(fd["parent"])
+                fd["load"] = [str(rng.choice([F(1, 1000), F(1, 500), F(1, 250)])) for _ in fd["parent"]]
+            ps = net.build(dict(spec, exact=False))
+            case["faults"] = {"1": [["line", "F0L0", "2"]]}
+        elif targeted:
+            # a fault at the end of one lateral: the junction and the other laterals stay energised behind the reclosed breaker
+            leaves = [l.name for i, l in enumerate(ps.lines) if i not in set(spec["feeders"][0]["parent"])]
+            case["faults"] = {str(rng.randint(1, 2)): [["line", rng.choice(leaves), str(rng.choice([F(2), F(3)]))]]}
+        else:
+            case["faults"] = acct.rand_faults(rng, ps, n_inc, ("line", "trafo"), nmax=3)
         cases.append(case)
     return cases
 
